@@ -22,7 +22,7 @@ var rec *vlib.Rec
 
 // known findings: id -> shape; the generator does not produce the shape of a finding
 // that is listed as "known" in known_findings.json, and counts how often it would have
-var findingIDs = []string{"F-C06-1", "F-C06-2", "F-C06-3", "F-C06-4", "F-C06-5", "F-C06-6", "F-C06-7", "F-C06-8"}
+var findingIDs = []string{"F-C06-1", "F-C06-2", "F-C06-3", "F-C06-4", "F-C06-5", "F-C06-6", "F-C06-7", "F-C06-8", "F-C06-9", "F-C06-10", "F-C06-11"}
 
 func TestMain(m *testing.M) {
 	rec = vlib.Open("C06")
